@@ -31,10 +31,17 @@ TRANSLATORS = ['prompt_filter',     # Gen/PromptFilter.v: the code facts the mai
                                     # Prompt/Interp.v and tied to Prompt/Model.v / System.v by simulation (Prompt/Tie.v, TieSys.v)
 
 TRUSTED_BASE = [
-    'translate/prompt_funs.py (ast -> terms of Prompt/Syntax.v, fail closed; drops logging / truthiness asserts / docstrings; '
-    'alpha-normalises locals) and the semantics Prompt/Interp.v gives those terms (queue.Queue FIFO, dict/defaultdict/set, '
-    'int identity = CPython small-int cache, pluggy calling Prompt.prompt / on_prompt, a thread runs from one queue.get() to the next '
-    'without interleaving)',
+    'translate/prompt_funs.py (ast -> terms of Prompt/Syntax.v, fail closed; drops ONLY logging statements / strings built for them / '
+    'docstrings / pass; asserts and ifs are translated; alpha-normalises locals; refuses class bases, class-level statements, special '
+    'methods, monkeypatching or rebinding of translated names) and the semantics Prompt/Interp.v gives those terms (queue.Queue FIFO, '
+    'dict/defaultdict/set, int identity = CPython small-int cache, pluggy calling Prompt.prompt / entering Repeater.on_prompt, '
+    '@contextmanager generators, try/except by class, try/finally with the exception going on afterwards, ThreadPoolExecutor = one '
+    'thread per submit and wait at exit; a thread runs from one blocking operation to the next without interleaving). '
+    'Exceptions: real (one frame per micro-step). Cancellation: does not exist in this code (threads, no awaits in the child; the three '
+    'main-process coroutines translated have no try/finally and nothing to clean up). Opaque reads (utcnow(), '
+    'current_trace_call_info(), self._run_no) are assumed pure and non-raising',
+    'Prompt/TieFactory.v object semantics (Cls(k=v) allocates, def = closure over earlier locals, attribute stores on locals not '
+    'tracked); StdInOut keeping and calling prompt_func is a shape check in the translator; pluggy calls init once per run',
     'correspondence harness harness/props/c07.py (script generator, decoy policy, log -> label sequence: '
     'Relay right after each Send, Take of the addressed trace after each Relay and after each OpenPrompt)',
     'harness/child.py + child_worker.py (real nextline.spawned.main in-process with queue.Queue)',
